@@ -710,6 +710,21 @@ func liqDrive(t *testing.T, mode string) {
 				}
 			}
 		}
+		if !c04 && ci < 2 {
+			w.liqRegressionMM(w.apps[1-ci]) // app 2 / pair 1, then app 1 / its highest pair
+		}
+		if c04 && g.chance(35) {
+			// the creator withdraws the WHOLE pool-coin supply of a fresh pool in a batch of its own:
+			// the supply reaches zero and the pool must be marked disabled
+			app := w.apps[g.intn(3)]
+			if pools := w.k.GetAllPools(w.ctx, app); len(pools) > 0 {
+				pl := pools[g.intn(len(pools))]
+				w.opWithdraw(app, 90, pl.Id, bal(w.a, w.ctx, addrN(90), pl.PoolCoinDenom))
+				w.opEnd()
+				w.now = w.now.Add(10 * time.Second)
+				w.opBegin()
+			}
+		}
 		nb := 3 + g.intn(6)
 		for b := 0; b < nb; b++ {
 			nops := 10 + g.intn(31)
@@ -726,6 +741,45 @@ func liqDrive(t *testing.T, mode string) {
 			w.opBegin()
 		}
 	}
+}
+
+// liqRegressionMM is the witness of C07-F1 (fixed; kept as a regression case): market-making orders in
+// a pair whose id differs from the app id are cancelled by MsgCancelMMOrder in a later batch, placed
+// again and replaced by a second MsgMMOrder. Before the fix both calls returned success, cancelled and
+// refunded nothing and dropped the index (GetOrder was called with app id and pair id swapped).
+func (w *liqWorld) liqRegressionMM(app uint64) {
+	ps := w.pairs[app]
+	if len(ps) == 0 {
+		return
+	}
+	p, _ := w.k.GetPair(w.ctx, app, ps[len(ps)-1].Id)
+	if app == w.apps[1] {
+		p, _ = w.k.GetPair(w.ctx, app, ps[0].Id)
+	}
+	params, _ := w.k.GetGenericParams(w.ctx, app)
+	prec := int(params.TickPrecision)
+	ref := w.refP[fmt.Sprintf("%d:%d", app, p.Id)]
+	place := func(sell, buy int64) {
+		lo, hi := ref.Mul(sdk.NewDecWithPrec(5, 1)), ref.Mul(sdk.NewDecWithPrec(15, 1))
+		if cur, _ := w.k.GetPair(w.ctx, app, p.Id); cur.LastPrice != nil {
+			lo, hi = liqtypes.PriceLimits(*cur.LastPrice, params.MaxPriceLimitRatio, prec)
+		}
+		mid := amm.PriceToDownTick(lo.Add(hi).QuoInt64(2), prec)
+		w.opMM(app, 50, p.Id, amm.PriceToDownTick(hi, prec), amm.PriceToUpTick(mid, prec), sdk.NewInt(sell),
+			mid, amm.PriceToUpTick(lo, prec), sdk.NewInt(buy), 3600)
+	}
+	nextBlock := func() {
+		w.opEnd()
+		w.now = w.now.Add(10 * time.Second)
+		w.opBegin()
+	}
+	place(1000000, 0)
+	nextBlock()
+	w.opCancelMM(app, 50, p.Id)
+	place(3333333, 1000000)
+	nextBlock()
+	place(0, 50000000) // replaces the orders of the previous batch
+	nextBlock()
 }
 
 func (w *liqWorld) pickPair(g *rng) (uint64, liqtypes.Pair, bool) {
